@@ -2,7 +2,7 @@
    encode the observation.  [run] is what the extracted CLI calls; [judge] applies the
    executable property predicates of Spec.v to an observation made on the IMPLEMENTATION. *)
 From Coq Require Import List Ascii String ZArith Bool.
-From Model Require Import Bytes Wire Glob StaticRoute RoundRobin Pins Resolver SendFault Codec Message Spec SpecC14 SpecC16 SpecC15 SpecC19 SpecC05 SpecC20.
+From Model Require Import Bytes Wire Glob StaticRoute RoundRobin Pins Resolver SendFault Codec Message Spec SpecC14 SpecC16 SpecC15 SpecC19 SpecC05 SpecC20 RunProxy.
 Import ListNotations.
 
 Definition decode_error : list bytes := [s2b "decode-error"].
@@ -173,6 +173,7 @@ Definition run (comp : bytes) (args : list bytes) : list bytes :=
   else if beq comp (s2b "codec") then run_codec args
   else if beq comp (s2b "codecgen") then run_codecgen args
   else if beq comp (s2b "dialog") then run_dialog args
+  else if beq comp (s2b "proxy") then run_proxy args
   else [s2b "unknown-component"].
 
 (* codec: kind text nexpected expected.. then the observation *)
